@@ -11,7 +11,7 @@ from __future__ import annotations
 import z3
 
 from pyvc.core import (SV, SBool, Obj, Val, VNone, BoolS, Cls, to_val, PyRaise, Stub, run, run_raises, truthy, Closure)
-from pyvc.driver import Ob
+from pyvc.driver import Ob, cover_hyps
 from pyvc.ground import Q
 from pyvc.env import _MISSING
 from props import routine_world as rw
@@ -50,7 +50,7 @@ def _simple(chk, func, mk, check):
     results = I.run_function(func, mk)
     for pi, (path, out, obls, writes, cur) in enumerate(results):
         check(chk, func, f"p{pi}", path, out, cur, I)
-    chk.add(Ob(func, "cover", "pre", results[0][0].hyps, z3.BoolVal(True), expect="sat"))
+    chk.add(Ob(func, "cover", "pre", cover_hyps(results), z3.BoolVal(True), expect="sat"))
     chk.trusted.update(I.assumed_used)
 
 
